@@ -233,6 +233,8 @@ def std_kinds(names, cfg_fn=None, cfg_fn2=None, partial_fn=None):
       'eqmd2': Kind('eqmd2', 2, True, mk_buildable(fdl.Config, N.md2), True),
       'mlist': Kind('mlist', 0, False, lambda v: ['m']),  # == the default
       'mdefobj': Kind('mdefobj', 0, False, lambda v: N.MUT_DEFAULT),
+      'cfgimm': Kind('cfgimm', 2, True, mk_buildable(fdl.Config, N.immut_fn),
+                     True),
       'cfgfail': Kind('cfgfail', 2, True, mk_buildable(fdl.Config, N.failer),
                       True),
       'cfgmut': Kind('cfgmut', 2, True, mk_buildable(fdl.Config, N.mutator),
